@@ -1,5 +1,5 @@
 import DesperModel.Coro
-import DesperProofs.Lemmas.CoroPromise
+import DesperProofs.Lemmas.CoroGen
 open Desper Desper.Coro
 
 /-- a small program used by the non-vacuity examples: generator 0 runs, waits 2 s, runs, returns 5
@@ -13,14 +13,19 @@ def C09_demo : Universe :=
 /-- the D10 history: start, a frame, kill immediately followed by start -/
 def C09_d10 : List Op := [.start 0, .process 8 [], .kill 0, .start 0]
 
-/-- **process never fails because of start/kill bookkeeping.**  Whatever the program (scripts `U`),
-whatever the history `ops` of start / kill / state / value / process operations issued from outside
-and from inside bodies, with whatever dt values and heap tie-breaks, the next `process` call
-completes: no `KeyError`/`IndexError` from the tables, and the loop's fuel is never exhausted
-(one frame terminates). -/
+/-- **process never fails because of start/kill bookkeeping.**  Whatever the program (scripts `U`,
+bodies that raise included), whatever the history `ops` of start / kill / state / value / process
+operations issued from outside and from inside bodies, with whatever dt values and heap
+tie-breaks — also after calls that a body aborted — the next `process` call either completes or is
+left by an exception that a generator body raised (`Outcome.crashed`): never a `KeyError` /
+`IndexError` / `ValueError` of the tables (`Outcome.raised`), and the loop's fuel is never exhausted
+(one frame terminates).  For a program whose bodies do not raise it completes. -/
 theorem C09_process_total (U : Universe) (ops : List Op) (dt : Int) (hint : List Gen) :
-    (process U (run U init ops) dt hint).2 = .ok :=
-  (process_spec U (run_inv U inv_init ops) dt hint).1
+    ((process U (run U init ops) dt hint).2 = .ok ∨
+      ∃ e, (process U (run U init ops) dt hint).2 = .crashed e) ∧
+    (NoRaise U → (process U (run U init ops) dt hint).2 = .ok) :=
+  ⟨(process_spec_gen U (run_inv U inv_init ops) dt hint).1,
+    fun _ => (process_spec U (run_inv U inv_init ops) dt hint).1⟩
 
 example : (process C09_demo (run C09_demo init C09_d10) 8 []).2 = .ok := by decide
 
@@ -28,7 +33,7 @@ example : (process C09_demo (run C09_demo init C09_d10) 8 []).2 = .ok := by deci
 once in `active ∪ waiting` (voided heap entries do not count); `gens` has an entry exactly for the
 generators that occur, `None` for those in the deque and the wait record for those in the heap;
 `kill ⊆ dom gens`; `dom promises = dom gens`. -/
-theorem C09_tables_coherent (U : Universe) (ops : List Op) :
+theorem C09_tables_coherent (U : Universe) (ops : List Op) :  -- every program, raising bodies included
     let s := run U init ops
     s.active.count none = 1 ∧
     (∀ g, s.active.count (some g) + s.waiting.countP (fun r => r.gen == some g) ≤ 1) ∧
@@ -87,9 +92,9 @@ theorem C09_kill_final (U : Universe) (ops : List Op) (g : Gen) :
         (run U (run U init ops) more).pc g = (run U init ops).pc g) ∧
     (∀ s, (kill U s g).2 = .ok → Dead g (kill U s g).1) := by
   refine ⟨fun pre post i h => ?_, fun more hd hn => ?_, fun s hk => ?_⟩
-  · have L := run_li U top_init ops li_init pcLog_init
+  · have L := run_li_gen U top_init ops li_init pcLog_init
     exact goodLog_split (h ▸ L.good)
-  · exact (run_frozen U (run_top U top_init ops) more g).dead hn hd
+  · exact (run_frozen_gen U (run_top_gen U top_init ops) more g).dead hn hd
   · unfold kill at hk ⊢
     split
     · simp_all
@@ -104,23 +109,24 @@ example : (run C09_demo init (C09_d10 ++ [.process 8 [], .process 8 [], .process
 /-- **promise.**  (1) Whenever a return value is stored (`stored g p v`: `g` finished with `v`), `p`
 is the promise handed out by the most recent successful start of `g` before that moment — the start
 that is current — and at the end of every history that promise still holds `v`.
-(2) And it *is* stored: when a generator that runs in a `process` call finishes in it (its step ends
+(2) And it *is* stored: when a generator that runs in a `process` call that returns normally finishes in it (its step ends
 with `return v`, or the generator object is already exhausted: `v = None`) — not being killed by a
 step executed in that call — a `stored g p v` entry is logged in that call. -/
 theorem C09_promise (U : Universe) (ops : List Op) (g : Gen) (v : Option Int) :
     (∀ pre post p, (run U init ops).log = post ++ .stored g p v :: pre →
       lastPromise g pre = some p ∧ (run U init ops).values p = v) ∧
-    (∀ dt hint, runnableIn (run U init ops) dt g → (run U init ops).kill g = false →
+    (∀ dt hint, (process U (run U init ops) dt hint).2 = .ok →
+      runnableIn (run U init ops) dt g → (run U init ops).kill g = false →
       (∀ h, runnableIn (run U init ops) dt h → ∀ st, curStep U (run U init ops) h = some st →
         Act.kill g ∉ st.acts) →
       ((hasCode U (run U init ops) g ∧ ∃ st, curStep U (run U init ops) g = some st ∧ st.fin = .ret v) ∨
         (¬ hasCode U (run U init ops) g ∧ v = none)) →
       ∃ new p, (process U (run U init ops) dt hint).1.log = new ++ (run U init ops).log ∧
         Entry.stored g p v ∈ new) := by
-  refine ⟨fun pre post p h => ?_, fun dt hint hr hk hno hret => ?_⟩
-  · have P := run_pi U top_init ops pi_init
+  refine ⟨fun pre post p h => ?_, fun dt hint hok hr hk hno hret => ?_⟩
+  · have P := run_pi_gen U top_init ops pi_init
     exact ⟨goodP_split (h ▸ P.good), (P.ret g p v (by rw [h]; simp)).1⟩
-  · exact process_returns U (run_top U top_init ops) dt hint hr hk hno hret
+  · exact process_returns_ok U (run_top_gen U top_init ops) dt hint hok hr hk hno hret
 
 /-- generator 0 of the demo is started twice (promises 0 and 1) and returns 5: promise 1 holds 5,
 promise 0 (abandoned by the restart) holds nothing -/
@@ -129,18 +135,20 @@ example : let s := run C09_demo init (C09_d10 ++ [.process 8 [], .process 8 [], 
 
 /-- **released.**  (1) In every reachable state a generator without an entry in `gens` is referenced
 by no table at all (deque, live heap records, kill set, promises) — and
-(2) after a `process` call in which `g` was not started again, `g` has no entry in `gens` whenever
+(2) after a `process` call that returns normally and in which `g` was not started again, `g` has no
+entry in `gens` whenever
   (a) it was in the deque with a kill pending (it would have run in this call),
   (b) it was waiting with a kill pending and its wait elapsed in this call, or
   (c) it ran in this call and finished (returned, or was exhausted), not being killed by a step
       executed in this call.
 A killed coroutine whose turn or wake-up lies in a later call is released in that call, by (a)/(b)
-applied there. -/
+applied there; a call that a body aborts releases the coroutine that raised at once
+(`C09_raised_is_over`) and leaves the others where they are for the next call. -/
 theorem C09_released (U : Universe) (ops : List Op) (g : Gen) :
     let s := run U init ops
     (s.gens g = none → some g ∉ s.active ∧ (∀ r ∈ s.waiting, r.gen ≠ some g) ∧ s.kill g = false ∧
       s.promises g = none) ∧
-    (∀ dt hint, nStart (process U s dt hint).1 g = nStart s g →
+    (∀ dt hint, (process U s dt hint).2 = .ok → nStart (process U s dt hint).1 g = nStart s g →
       (some g ∈ s.active → s.kill g = true → (process U s dt hint).1.gens g = none) ∧
       (s.kill g = true → (∃ d, (⟨some g, d⟩ : Rec) ∈ s.waiting ∧ d ≤ s.timer + dt) →
         (process U s dt hint).1.gens g = none) ∧
@@ -148,10 +156,44 @@ theorem C09_released (U : Universe) (ops : List Op) (g : Gen) :
         (∀ h, runnableIn s dt h → ∀ st, curStep U s h = some st → Act.kill g ∉ st.acts) →
         (∀ st, hasCode U s g → curStep U s g = some st → ∃ v, st.fin = .ret v) →
         (process U s dt hint).1.gens g = none)) := by
-  exact ⟨(run_top U top_init ops).inv.nowhere g,
-    fun dt hint hn => process_released U (run_top U top_init ops) dt hint g hn⟩
+  exact ⟨(run_top_gen U top_init ops).inv.nowhere g,
+    fun dt hint hok hn => process_released_ok U (run_top_gen U top_init ops) dt hint g hok hn⟩
 
 /-- a killed runnable generator is gone after the next frame; a finished one at once -/
 example : (process C09_demo (run C09_demo init [.start 1, .kill 1]) 8 []).1.gens 1 = none ∧
     (run C09_demo init [.start 1, .process 1 [], .process 1 []]).gens 1 = none ∧
     retained 3 (run C09_demo init [.start 1, .kill 1, .process 1 []]) = [] := by decide
+
+/-- a program with a body that raises (generator 0 leaves with `SwitchWorld` in its second step) -/
+def C09_raising : Universe :=
+  { script := fun g =>
+      if g = 0 then some [⟨[], .yield none⟩, ⟨[], .raise "SwitchWorld"⟩, ⟨[], .ret (some 5)⟩]
+      else if g = 1 then some [⟨[], .yield none⟩, ⟨[], .yield none⟩, ⟨[], .yield none⟩, ⟨[], .ret none⟩]
+      else none }
+
+/-- **A coroutine whose body raised is over** (every program, every history).  When a `process`
+call is left by an exception of a body, the generator that raised — it was in the deque of this
+call — has no table entry when the call returns: `state` reads TERMINATED, no table references it
+(deque, heap, kill set, promises), its generator object is exhausted; and an exhausted generator
+object never executes anything again, whatever happens afterwards. -/
+theorem C09_raised_is_over (U : Universe) (ops : List Op) (dt : Int) (hint : List Gen) (e : String) :
+    let s := run U init ops
+    let s' := (process U s dt hint).1
+    ((process U s dt hint).2 = .crashed e →
+      ∃ g, runnableIn s dt g ∧ s'.gens g = none ∧
+        (some g ∉ s'.active ∧ (∀ r ∈ s'.waiting, r.gen ≠ some g) ∧ s'.kill g = false ∧
+          s'.promises g = none) ∧
+        (U.script g ≠ none → stateOf U s' g = .ok .terminated) ∧ s'.fin g = true) ∧
+    (∀ g more, s.fin g = true →
+      (run U s more).fin g = true ∧ (run U s more).pc g = s.pc g) := by
+  intro s s'
+  refine ⟨fun h => ?_, fun g more hf => run_over U (run_inv U inv_init ops) more g hf⟩
+  obtain ⟨g, hr, hg, hf, T'⟩ := process_crashed U (run_top_gen U top_init ops) dt hint h
+  refine ⟨g, hr, hg, T'.inv.nowhere g hg, fun hs => ?_, hf⟩
+  have := (stateOf_spec U T'.inv g hs).2.2
+  exact this.mpr (.inl ⟨(T'.inv.nowhere g hg).1, fun d hm => (T'.inv.nowhere g hg).2.1 _ hm rfl⟩)
+
+/-- generator 0 raises in the second call: it is gone when that call returns, its promise is empty -/
+example : let s := run C09_raising init [.start 0, .start 1, .process 1 [], .process 1 []]
+    (s.log.head?, s.gens 0, s.fin 0, s.values 0) = (some (.res (.crashed "SwitchWorld")), none, true, none) ∧
+    retained 2 s = [1] ∧ s.active = [none, some 1] := by decide
